@@ -801,7 +801,7 @@ func main() {
 	}
 
 	// ---- phase 1: plain sequential cases
-	pc := plainCases(rng, rep.Pick(1, 8))
+	pc := plainCases(rng, rep.Pick(1, 12))
 	envs := make([]*env, workers)
 	for i := range envs {
 		envs[i] = newEnv(0)
@@ -858,6 +858,7 @@ func main() {
 	lap("concurrent")
 
 	poolsan.Sweep()
+	rep.Count("served_messages_containing_opt_ignored_by_oracle", servedOPTs.Load())
 	rep.Count("poolsan_gets", poolsan.Gets.Load())
 	rep.Count("poolsan_releases", poolsan.Releases.Load())
 	if rep.Get("hits_verified") == 0 || rep.Get("mutations_effective") == 0 {
